@@ -89,6 +89,13 @@ def check(m, culture, layout, d, q, st, en, ref, ctx, second=None):
         if dtlib.view(r4) != obs:
             ctx.fail('date-depends-on-letter-case-of-culture-code', where, key, case, obs, dtlib.view(r4))
             return
+        # a plain date reads the same whatever DateTimeOptions the recogniser was built with
+        for opt in (1, 2, 4):
+            ro = dtlib.dt_model_opt(culture, opt).parse(q, ref)
+            ctx.event('option_variant_runs')
+            if dtlib.view(ro) != obs:
+                ctx.fail('date-depends-on-recogniser-options', dict(where, options=opt), key, dict(case, options=opt), obs, dtlib.view(ro))
+                return
         r2 = m.parse(q, second)
         with dtlib_vclock(dt.datetime(1971, 2, 4, 3, 0)) as reads:
             r3 = m.parse(q, ref)
